@@ -70,10 +70,20 @@ def routes(dim, call, sigma):
         hs = call["poses"]
         P = np.array(pts[0][:dim], dtype=float)
 
-        def back(X):
+        def back1(X):
             Y = np.asarray(X * P, dtype=float)             # one column per pose value
             Xi = X.inv()
             return np.column_stack([np.asarray(Xi[k] * Y[:, k], dtype=float).flatten() for k in range(len(hs))])
+
+        def back(X):
+            # X.inv() * (X * p) == p - and again after the object has been edited through its list interface
+            # (values reversed, first value replaced): the inverse must be that of the values held NOW
+            r1 = back1(X)
+            if not np.allclose(r1, np.column_stack([P] * len(hs)), rtol=0, atol=1e-6 * max(1.0, float(np.max(np.abs(P))))):
+                return r1
+            X.reverse()
+            X[0] = X[len(X) - 1]
+            return back1(X)
         if dim == 3:
             yield "SE3[k].inv()", (lambda: back(SE3([gamma.T4(h, sigma) for h in hs]))), "full"
             yield "SO3[k].inv()", (lambda: back(SO3([gamma.R3(h) for h in hs]))), "rot"
